@@ -661,6 +661,15 @@ def run(ctx):
                 ctx.execute("concurrent_abort", {"kind": kind, "workers": [{"tests": 2}, {"tests": 2}],
                                                  "abort": ["interrupt", at], "mode": "random",
                                                  "rseed": rng.randrange(10 ** 9), "p": 0.5})
+    # nobody asked for a stop: one worker whose runner breaks (reported as an error) does not stop the others'
+    # dispatching, and workers that share a route code are all waited for and all counted
+    for rep in range(ctx.scale(4, 60)):
+        for at in (0, 1, 2):
+            ctx.execute("concurrent_abort", {"kind": "cts", "workers": [{"tests": 2, "raise_at": at}, {"tests": 3}, {"tests": 2}],
+                                             "mode": "random", "rseed": rng.randrange(10 ** 9), "p": 0.5})
+        for route in (None, "shared"):
+            ctx.execute("concurrent_abort", {"kind": "stream", "workers": [{"tests": 2}, {"tests": 3}, {"tests": 1}],
+                                             "same_route": route, "mode": "random", "rseed": rng.randrange(10 ** 9), "p": 0.5})
     for tests in (["success"], ["failure"], ["success", "error", "success"], ["skip", "xfail"], ["uxsuccess", "success"], []):
         for empty_at in [None] + list(range(len(tests))):
             for hung in (False, True):
